@@ -2,6 +2,11 @@ package vc
 
 import (
 	"fmt"
+	"go/ast"
+	"go/constant"
+	"go/token"
+	"go/types"
+	"strconv"
 	"strings"
 
 	"golang.org/x/tools/go/ssa"
@@ -101,4 +106,112 @@ func (eng *Engine) VerifyLemma(name string) (em *Emitter, err error) {
 	ob := &Obligation{Name: "lemma " + name, Kind: "lemma", Func: "lemma " + name, Prefix: len(em.lines), PC: "true", Goal: goal}
 	em.Obls = append(em.Obls, ob)
 	return em, nil
+}
+
+// ExpandTables turns every "ginv_table <global>" directive into a package invariant transcribed mechanically from
+// the composite literal initialising that global (keys and values evaluated by go/types constant folding):
+// table[k] == v for every listed entry, and the zero value everywhere else. The invariant is then PROVED against the
+// SSA code of the package initialiser like any other ginv.
+func (eng *Engine) ExpandTables() {
+	for _, tb := range eng.CS.Tables {
+		p := eng.byPath[tb.Pkg]
+		if p == nil {
+			eng.errorf("%s:%d: ginv_table: package %s not loaded", tb.File, tb.Line, tb.Pkg)
+			continue
+		}
+		var lit *ast.CompositeLit
+		for _, f := range p.Syntax {
+			for _, d := range f.Decls {
+				gd, ok := d.(*ast.GenDecl)
+				if !ok || gd.Tok != token.VAR {
+					continue
+				}
+				for _, sp := range gd.Specs {
+					vs := sp.(*ast.ValueSpec)
+					for i, n := range vs.Names {
+						if n.Name == tb.Name && i < len(vs.Values) {
+							lit, _ = vs.Values[i].(*ast.CompositeLit)
+						}
+					}
+				}
+			}
+		}
+		if lit == nil {
+			eng.errorf("%s:%d: ginv_table: no composite literal initialises %s", tb.File, tb.Line, tb.Name)
+			continue
+		}
+		var conj []string
+		var keys []string
+		next := int64(0)
+		bad := false
+		for _, el := range lit.Elts {
+			val := el
+			if kv, ok := el.(*ast.KeyValueExpr); ok {
+				tv := p.TypesInfo.Types[kv.Key]
+				if tv.Value == nil || tv.Value.Kind() != constant.Int {
+					bad = true
+					break
+				}
+				next, _ = constant.Int64Val(tv.Value)
+				val = kv.Value
+			}
+			tv := p.TypesInfo.Types[val]
+			if tv.Value == nil {
+				bad = true
+				break
+			}
+			var vtext string
+			switch tv.Value.Kind() {
+			case constant.String:
+				vtext = strconv.Quote(constant.StringVal(tv.Value))
+			case constant.Int:
+				vtext = tv.Value.ExactString()
+			case constant.Bool:
+				vtext = tv.Value.ExactString()
+			default:
+				bad = true
+			}
+			conj = append(conj, fmt.Sprintf("%s[%d] == %s", tb.Name, next, vtext))
+			keys = append(keys, fmt.Sprintf("i != %d", next))
+			next++
+		}
+		if bad {
+			eng.errorf("%s:%d: ginv_table %s: non-constant key or value", tb.File, tb.Line, tb.Name)
+			continue
+		}
+		zero := `""`
+		at, isArr := p.TypesInfo.TypeOf(lit).Underlying().(*types.Array)
+		if !isArr {
+			eng.errorf("%s:%d: ginv_table %s: not an array", tb.File, tb.Line, tb.Name)
+			continue
+		}
+		if b, ok := at.Elem().Underlying().(*types.Basic); ok && b.Info()&types.IsString == 0 {
+			zero = "0"
+			if b.Info()&types.IsBoolean != 0 {
+				zero = "false"
+			}
+		}
+		if at.Len() > 4096 {
+			eng.errorf("%s:%d: ginv_table %s: table too large", tb.File, tb.Line, tb.Name)
+			continue
+		}
+		listed := map[string]bool{}
+		for _, k := range keys {
+			listed[strings.TrimPrefix(k, "i != ")] = true
+		}
+		// every index that the literal does not list holds the zero value (enumerated: the array length is a constant)
+		for i := int64(0); i < at.Len(); i++ {
+			if !listed[fmt.Sprint(i)] {
+				conj = append(conj, fmt.Sprintf("%s[%d] == %s", tb.Name, i, zero))
+			}
+		}
+		text := strings.Join(conj, " && ")
+		e, err := ParseCExpr(text)
+		if err != nil {
+			eng.errorf("%s:%d: ginv_table %s: %v", tb.File, tb.Line, tb.Name, err)
+			continue
+		}
+		eng.CS.GInvs = append(eng.CS.GInvs, &Lemma{Name: "table_" + tb.Name, Expr: e, Text: fmt.Sprintf("(%d entries of %s transcribed from its composite literal)", len(conj), tb.Name), Pkg: tb.Pkg, File: tb.File, Line: tb.Line})
+	}
+	eng.CS.Tables = nil
 }
